@@ -282,6 +282,14 @@ func genHist(r *rand.Rand, tier string, kind int) *hist {
 			heads = append([]int{len(h.commits) - 1}, heads[2:]...)
 		}
 	}
+	if kind == 0 && len(h.commits) > 3 && r.Intn(4) == 0 { // the file is added only by commit k
+		k := 1 + r.Intn(2)
+		for i := 0; i < k; i++ {
+			h.commits[i].present = false
+			h.commits[i].lines = nil
+		}
+		h.ops = append(h.ops, "file-added-later")
+	}
 	h.skew = kind == 2
 	for i := range h.commits {
 		h.commits[i].time = 1600000000 + int64(i)*100
@@ -459,7 +467,10 @@ func run(c *vf.Ctx) {
 			items = append(items, item{h, base})
 			for i, hc := range h.commits {
 				gc := gen.Commit{Time: hc.time, ATime: hc.time, Zone: "+0000", Msg: fmt.Sprintf("c%d\n", i),
-					Tree: gen.Tree{path: gen.File{Mode: "100644", Content: h.content(i)}, "other": gen.File{Mode: "100644", Content: []byte(fmt.Sprintf("o%d\n", i))}}}
+					Tree: gen.Tree{"other": gen.File{Mode: "100644", Content: []byte(fmt.Sprintf("o%d\n", i))}}}
+				if hc.present {
+					gc.Tree[path] = gen.File{Mode: "100644", Content: h.content(i)}
+				}
 				for _, p := range hc.parents {
 					gc.Parents = append(gc.Parents, base+p)
 				}
@@ -482,7 +493,7 @@ func run(c *vf.Ctx) {
 				idxOf[idOf(i)] = i
 			}
 			targets := []int{len(h.commits) - 1}
-			if (lo+k)%3 == 0 && len(h.commits) > 2 {
+			if (lo+k)%3 == 0 && len(h.commits) > 2 && h.commits[len(h.commits)/2].present {
 				targets = append(targets, len(h.commits)/2)
 			}
 			for _, tg := range targets {
